@@ -954,8 +954,9 @@ func buildIndex(roots []rootRec, exports []*export) ([]byte, map[string][]string
 	var descs []any
 	for _, r := range roots {
 		var ex *export
+		// (one export per root: the same node may be exported under several tags)
 		for _, x := range exports {
-			if x.root.N == r.N {
+			if x.root.N == r.N && (ex == nil || x.root.Tag == r.Tag) {
 				ex = x
 			}
 		}
